@@ -151,6 +151,7 @@ class RunResult:
     checks: Counter = field(default_factory=Counter)  # oracle evaluations per check id
     steps: int = 0  # simulated environment steps / operations
     sim_seconds: float = 0.0
+    variant: str = ""  # scenario-specific label of the history shape (part of the distinctness measure)
 
     def fail(self, prop: str, check: str, cause: str, **detail: Any) -> None:
         self.verdicts.append(Verdict(prop, check, cause, detail))
@@ -165,7 +166,7 @@ class RunResult:
             return str(c) if c < 3 else ("3+" if c < 8 else "8+")
 
         items = sorted((k, bucket(v)) for k, v in list(self.events.items()) + list(self.faults.items()) if v)
-        return hashlib.sha256(canon(items).encode()).hexdigest()[:16]
+        return hashlib.sha256((canon(items) + "|" + self.variant).encode()).hexdigest()[:16]
 
 
 class Crash(Exception):
